@@ -282,7 +282,7 @@ def _run_harness(h: Harness, res: Result, *, tier, timeout_ms, seed, known, prop
             return h.body(inp)
 
     try:
-        eng, paths, exhaustive = explore(fn, max_paths=h.max_paths, timeout_ms=timeout_ms,
+        eng, paths, exhaustive = explore(fn, max_paths=h.max_paths, timeout_ms=min(timeout_ms, 20000),  # feasibility only: unknown = explored
                                          budget_s=(150 if tier == "quick" else 1800))
     except BudgetExceeded as e:
         res.inconclusive.append("%s: %s" % (h.name, e))
